@@ -62,12 +62,17 @@ def parse(src: str, mode: str = "exec", py_version=None, verbose: bool = False, 
     out = io.StringIO() if verbose else None
     tmp = None
     try:
-        if mode == "file":
-            # the file entry point: the text written as UTF-8 to a scratch file (removed afterwards)
-            import tempfile
+        if mode == "bare":
+            # the classes used directly, as the tests do: XonshParser(Tokenizer(generate_tokens(readline))).parse("file")
+            from peg_parser.tokenize import generate_tokens
+            from peg_parser.tokenizer import Tokenizer
 
-            fd, tmp = tempfile.mkstemp(suffix=".xsh", prefix="xv_")
-            with os.fdopen(fd, "w", encoding="utf-8", newline="") as fh:
+            tree = cls(Tokenizer(generate_tokens(io.StringIO(src).readline)), py_version=py_version).parse("file")
+        elif mode == "file":
+            # the file entry point: the text written as UTF-8 to a scratch file (removed afterwards).  The SAME path is
+            # used for every file-mode parse of this process: anything keyed by the path sees different contents over time
+            tmp = f"/var/tmp/xv_scratch_{os.getpid()}.xsh"
+            with open(tmp, "w", encoding="utf-8", newline="") as fh:
                 fh.write(src)
             if verbose:
                 with contextlib.redirect_stdout(out):
